@@ -390,7 +390,7 @@ CONFIGS = [
            lambda p: G.Deduping(_nsga2(p), auto_reward_fn=auto_reward_mo),
            _p_pop, False, False, True),
     Config('custom[counters+feedback]', 'custom[counters+feedback]',
-           lambda p: Counting(), _p_none, True, True, True),
+           lambda p: Counting(), _p_none, True, True, True, True),
     Config('custom[dna_generator]', 'custom[dna_generator]',
            lambda p: drawn(), _p_none, False, False, False, True),
     Config('Deduping(puppet)', 'Deduping(puppet)',
